@@ -312,6 +312,18 @@ def enum_words(tier, seed):
                 w = (p << 26) | (rt << 21) | (ra << 16) | im
                 if w not in seen:
                     seen.add(w); yield w
+    # conditional branches: every BO x BI (x AA/LK) of bc, bclr, bcctr
+    for bo in range(32):
+        for bi in range(32):
+            for low in range(4):
+                w = (16 << 26) | (bo << 21) | (bi << 16) | (0x10 << 2) | low
+                if w not in seen:
+                    seen.add(w); yield w
+            for xo in (16, 528):
+                for lk in (0, 1):
+                    w = (19 << 26) | (bo << 21) | (bi << 16) | (xo << 1) | lk
+                    if w not in seen:
+                        seen.add(w); yield w
     # instructions whose 10-bit field names a special register (or a mask / segment register): every value of the field
     for xo in (339, 467, 371, 144, 210, 595):
         for fld in range(1024):
@@ -333,6 +345,7 @@ def ob_map_text(run, tier, seed):
         g[0] += 1
         badwords.add(w)
     t0 = time.time()
+    last = {}
     for w in enum_words(tier, seed):
         n += 1
         claims = [c for c in ppc.tab_mn if c.check(w)]
@@ -354,6 +367,17 @@ def ob_map_text(run, tier, seed):
             continue
         cls = claims[0]
         dec += 1
+        # an instruction decoded earlier is an object of its own: decoding / assembling other words of its class does not change it
+        prev = last.get(cls)
+        if prev is not None:
+            pi, pw, pt = prev
+            try:
+                with contextlib.redirect_stdout(io.StringIO()):
+                    nb, nt = pi.bin(), str(pi)
+                if nb != pw or nt != pt:
+                    fail('alias', cls.__name__, pw, 'the instruction decoded from 0x%08x ("%s") reads 0x%08x / "%s" after other words of %s were decoded' % (pw, pt, nb, nt, cls.__name__))
+            except Exception as ex:
+                pass
         try:
             i = cls_instance(cls, w)
         except Exception as ex:
@@ -379,21 +403,30 @@ def ob_map_text(run, tier, seed):
         except Exception as ex:
             fail('render', cls.__name__ + ':' + type(ex).__name__, w, 'str() raises %s: %s' % (type(ex).__name__, ex)); continue
         try:
+            last[cls] = (i, i.bin(), txt)
+        except Exception:
+            last.pop(cls, None)
+        try:
             with contextlib.redirect_stdout(io.StringIO()):
                 back = ppc.ppc_mn.asm(txt)
             bw = struct.unpack('>L', back[0])[0]
             if bw != w:
-                fail('text', '%s/%s' % (cls.__name__, text_key(txt)), w, '"%s" assembles to 0x%08x' % (txt, bw))
+                fail('text', '%s/%s' % (cls.__name__, text_key(txt, w)), w, '"%s" assembles to 0x%08x' % (txt, bw))
         except Exception as ex:
-            fail('text', '%s/%s:%s' % (cls.__name__, text_key(txt), type(ex).__name__), w, 'assembling "%s" raises %s: %s' % (txt, type(ex).__name__, str(ex)[:80]))
+            fail('text', '%s/%s:%s' % (cls.__name__, text_key(txt, w), type(ex).__name__), w, 'assembling "%s" raises %s: %s' % (txt, type(ex).__name__, str(ex)[:80]))
     return n, dec - len(badwords), groups, time.time() - t0
 
-def text_key(txt):
+def text_key(txt, w=None):
     """mnemonic and, when it is a word (a condition or a special register, not a number or a general register), the first operand"""
     t = txt.replace(',', ' ').split()
     if not t: return '?'
     k = t[0]
     if len(t) > 1 and re.match(r'^[A-Z][A-Z]+\d*$', t[1]) and not re.match(r'^(R|FP|CR)\d+$', t[1]) and t[1] != 'SP': k += ' ' + t[1]
+    if w is not None and (w >> 26) in (16, 19) and k.startswith('B'):
+        # conditional branches: the BO field (it selects the mnemonic, carries hint bits and says whether the condition is used), the
+        # condition bit of the CR field (BI mod 4) and whether a CR field other than 0 is named decide what the rendering looks like
+        bo, bi = (w >> 21) & 31, (w >> 16) & 31
+        k += ' bo%d bi%d%s' % (bo, bi & 3, '+cr' if bi >> 2 else '')
     return k
 
 ALIASES = {'LI': 'ADDI', 'LIS': 'ADDIS', 'BLR': 'BCLR', 'BCTR': 'BCCTR', 'B': 'BC', 'MFFSR': 'MFFS', 'TLBID': 'TLBIA'}
@@ -418,6 +451,20 @@ def replay(clause, word, extra):
         i = cls_instance(cls, word)
     except Exception as ex:
         print('decode raises', repr(ex)); return 1 if clause == 'decode' else 0
+    if clause == 'alias':
+        import io, contextlib
+        with contextlib.redirect_stdout(io.StringIO()):
+            t0 = str(i); b0 = i.bin()
+        others = [word ^ 1, word ^ (1 << 21), word ^ (1 << 16), word ^ (3 << 11)]
+        for w2 in others:
+            for c2 in ppc.tab_mn:
+                if c2 is cls and c2.check(w2):
+                    try: cls_instance(cls, w2)
+                    except Exception: pass
+        with contextlib.redirect_stdout(io.StringIO()):
+            t1 = str(i); b1 = i.bin()
+        print('before: 0x%08x %r   after decoding neighbours of the same class: 0x%08x %r' % (b0, t0, b1, t1))
+        return 1 if (t0, b0) != (t1, b1) else 0
     if clause in ('reencode', 'reencode-enum'):
         b = i.bin(); print('bin() = 0x%08x' % b); return 1 if b != word else 0
     if clause == 'name':
